@@ -157,6 +157,9 @@ def call_external(I, name, args, kwargs, node, frame):
 
 def call_builtin(I, name, args, kwargs, node, frame):
     run = I.run
+    if name not in ("print", "bool", "list", "tuple", "dict", "callable", "id"):
+        args = [I.force(a) for a in args]
+        kwargs = {k: I.force(v) for k, v in kwargs.items()}
     if name == "print":
         return NONE
     if name == "len":
@@ -397,6 +400,9 @@ def call_builtin(I, name, args, kwargs, node, frame):
 
 def call_builtin_method(I, recv, name, args, kwargs, node, frame):
     run = I.run
+    recv = I.force(recv)
+    if not (isinstance(recv, VRef) and recv.kind in ("list", "dict", "set") and name in ("append", "add", "setdefault", "insert", "get", "pop", "update", "extend")):
+        args = [I.force(a) for a in args]
     if isinstance(recv, VStr):
         return str_method(I, recv, name, args, kwargs)
     if isinstance(recv, VRef):
